@@ -1,6 +1,7 @@
 """Contracts, evaluation of contract clauses, verification of a function against its contract
 (VC generation), application of callee contracts, loop cutting."""
 import ast
+import os
 import importlib
 import types as _types
 import z3
@@ -712,6 +713,13 @@ class Verifier(ExprMixin, CallMixin, BuiltinMixin, StmtMixin, Executor):
         ok = True
         for name, e in c.ensures:
             post = post.assume(self.spec_bool(e, post, env2, pre))
+            if os.environ.get('PYVC_DEBUG_ENSURES') and not self.feasible(post):
+                print('DEBUG: ensures', name, 'of', c.key, 'makes the call infeasible:', str(post.pc[-1])[:300])
+        if c.ensures and not self.feasible(post) and self.feasible(pre):
+            # vacuity guard: the callee's postcondition cannot hold at this reachable call (a clause that evaluates to
+            # false for these argument types, or contradicts what the caller knows): the normal-return path would vanish
+            # together with every obligation after it
+            raise OutOfReach('the postcondition of %s cannot hold at a reachable call site (contradictory clause)' % c.key)
         for ename, spec in c.raises.items():
             if spec.get('must'):
                 post = post.assume(z3.Not(self.spec_bool(spec['must'], pre, env)))
